@@ -25,9 +25,14 @@ git -C $wt apply $src/patch.diff || { echo "PATCH DOES NOT APPLY"; exit 3; }
 (cd $wt-demo && go test -vet=off -count=1 ./... >/dev/null 2>&1); with=$?
 echo "confirm: demo-without=$without (want 0) suite-with=$suite (want 0) demo-with=$with (want !=0)"
 if [ $without -ne 0 ] || [ $suite -ne 0 ] || [ $with -eq 0 ]; then echo "NOT CONFIRMED"; exit 4; fi
-git -C /repo apply $src/patch.diff || exit 5
-out=$(cd /verif && ./check $prop 2>&1); rc=$?
-git -C /repo checkout -- .
+if [ -n "${SEED_SCRATCH:-}" ]; then
+  # development mode: run the check against the scratch worktree (which already carries the change), outputs to a scratch dir
+  out=$(cd /verif && VERIF_REPO=$wt VERIF_OUT=$wt-demo/out ./check $prop 2>&1); rc=$?
+else
+  git -C /repo apply $src/patch.diff || exit 5
+  out=$(cd /verif && ./check $prop 2>&1); rc=$?
+  git -C /repo checkout -- .
+fi
 caught=$( [ $rc -ne 0 ] && echo yes || echo no )
 echo "$out" | grep -E "VIOLATION|obligation|bounded check|^govc:|^bounded:" | head -8
 echo "RESULT $name prop=$prop caught=$caught"
